@@ -194,6 +194,13 @@ impl<C: Suite> Model for M09<C> {
             _ => o.outcome(if acc { "perturbed:accept" } else { "perturbed:reject" }),
         }
         o.expect(&format!("C09:verify:{}:{}", g, cls), acc == want && v.is_ok(), if want { "accept" } else { "reject" }, verdict(&v));
+        let tv = guard(|| <C as BlsSignaturePop>::pop_verify(vpk.0, proof.0));
+        o.calls(1);
+        o.expect(&format!("C09:trait-pop_verify-agrees:{}:{}", g, cls), matches!(tv, Ok(Ok(()))) == acc && tv.is_ok(), verdict(&v), verdict(&tv));
+        if st.dev.is_none() {
+            let tp = <C as BlsSignaturePop>::pop_prove(&sk.0);
+            o.expect(&format!("C09:trait-pop_prove-agrees:{}", g), matches!(&tp, Ok(x) if *x == pop.0), "same proof", "differs");
+        }
         let r = rf::pop_verify::<C::R>(&Vec::<u8>::from(&vpk), &Vec::<u8>::from(&proof));
         o.expect(&format!("C09:verify-vs-reference:{}:{}", g, cls), acc == r, if r { "accept" } else { "reject" }, verdict(&v));
     }
